@@ -27,7 +27,7 @@ type LaneFn = fn(&Ctx) -> Report;
 
 pub fn lanes_of(id: &str) -> Vec<(&'static str, LaneFn)> {
     match id {
-        "C01" => vec![("routing", c01::routing), ("hostile_ids", c01::hostile_ids), ("abandoned", c01::abandoned)],
+        "C01" => vec![("routing", c01::routing), ("hostile_ids", c01::hostile_ids), ("abandoned", c01::abandoned), ("routing_threads", c01::routing_threads)],
         "C02" => vec![("requests", c02::requests), ("modifiers", c02::modifiers)],
         "C03" => vec![("responses", c03::responses), ("helpers", c03::helpers)],
         "C04" => vec![("cuts", c04::cuts), ("write_errors", c04::write_errors), ("handle_drops", c04::handle_drops)],
